@@ -30,22 +30,6 @@ Ltac witness x :=
     end
   end.
 
-(* array_remove_at on an array of strings: the removed element is dropped without vm_release (vm.c OP_ARR_REMOVE) *)
-Lemma arr_remove_leaks : leaks_at [IEnter 1; IPushStr 0; IArrLiteral 1; IPushNon] (IArrRemove 0%Z).
-Proof. witness 0. Qed.
-
-(* array_set with an index >= length: the value is neither stored nor released (vm.c OP_ARR_SET + vm_array_set) *)
-Lemma arr_set_oob_leaks : leaks_at [IEnter 1; IArrNew; IPushNon; IPushStr 0] (IArrSet 5%Z).
-Proof. witness 1. Qed.
-
-(* RET from a frame entered through CALL_INDIRECT: frame->closure was taken from the stack and is never released *)
-Lemma ret_closure_leaks : leaks_at [IEnter 1; IClosureNew 0; ICallIndirect 0 0 true; IPushNon] IRet.
-Proof. witness 0. Qed.
-
-(* CALL_EXTERN: the popped argument values are handed to the FFI and never released *)
-Lemma call_extern_leaks : leaks_at [IEnter 1; IPushStr 0] (ICallExtern 1 None).
-Proof. witness 0. Qed.
-
 (* SUB/MUL/DIV/MOD on a non-numeric operand: type error raised without releasing the operands (ADD does release them) *)
 Lemma arith_type_error_leaks : leaks_at [IEnter 1; IPushStr 0; IPushNon] IArith2.
 Proof. witness 0. Qed.
